@@ -38,7 +38,33 @@ def tree(v):
         return ("D",) + tuple(sorted((k, tree(x)) for k, x in v.items()))
     if isinstance(v, tuple):
         return ("T",) + tuple(tree(x) for x in v)
-    return (type(v).__name__, v)
+    if v is None or isinstance(v, (str, bytes, int, float, bool, complex)):
+        return (type(v).__name__, v)
+    return _otree(v, 0)
+
+
+def _otree(v, depth):
+    """Structural digest of an arbitrary application object (logger factories ...)."""
+    import types
+    if depth > 8:
+        return ("deep",)
+    if isinstance(v, (types.FunctionType, types.BuiltinFunctionType, types.MethodType, type)):
+        return ("F", getattr(v, "__module__", None), getattr(v, "__qualname__", repr(v)))
+    if isinstance(v, types.ModuleType):
+        return ("M", v.__name__)
+    d = getattr(v, "__dict__", None)
+    if d is None:
+        import re
+        return (type(v).__name__, re.sub(r" at 0x[0-9a-fA-F]+", "", repr(v)))
+    out = []
+    for k in sorted(d):
+        x = d[k]
+        if hasattr(x, "getSectionAttributes") or isinstance(x, (list, dict, tuple, Wrapped)) or \
+                x is None or isinstance(x, (str, bytes, int, float, bool, complex)):
+            out.append((k, tree(x)))
+        else:
+            out.append((k, _otree(x, depth + 1)))
+    return ("O", type(v).__name__, tuple(out))
 
 
 def load(schema, text, url=URL, overrides=()):
